@@ -238,9 +238,14 @@ def check_scenario(ctx, sc_dir, spec, tag):
             out = "iter:" + err(e)
         K.differential(ctx, [(f"carve.iter {sc.db} {sc.wal or '-'} {nhex} 1 {toks}", out)], "carve.iter",
                        nontrivial=lambda l, o: ",cols=" in o)
+        pre_dedup_journal = []
         if sc.journal:
             try:
-                jc = RollBackJournalCarver.carve(RollbackJournal(sc.journal), d, entry, sig)
+                with K.CellTap() as jtap:
+                    try:
+                        jc = RollBackJournalCarver.carve(RollbackJournal(sc.journal), d, entry, sig)
+                    finally:
+                        pre_dedup_journal = [c for call in jtap.calls for c in (call.get("out") or [])]
                 results["journal"] = ([c for cm in jc for c in cm.carved_cells.values()], None)
                 out = "ok " + ("/".join(
                     f"t{13 if 'LEAF' in str(cm.page_type).upper() else 5}:"
@@ -335,11 +340,13 @@ def check_scenario(ctx, sc_dir, spec, tag):
                 ctx.extra["deleted_rows_recalled"] = ctx.extra.get("deleted_rows_recalled", 0) + 1
             if hit is None:
                 extra = {}
-                if entry_point == "iterator":
-                    pre_hit = looks_for(pre_dedup, want, v["expect_first"])
+                if entry_point in ("iterator", "journal"):
+                    pre_hit = looks_for(pre_dedup if entry_point == "iterator" else pre_dedup_journal, want, v["expect_first"])
                     extra["found_before_dedup"] = pre_hit is not None
                     if pre_hit is not None:
-                        extra["lost_digest_shared_with"] = sum(1 for c in pre_dedup if c.md5_hex_digest == pre_hit.md5_hex_digest)
+                        extra["lost_digest_shared_with"] = sum(
+                            1 for c in (pre_dedup if entry_point == "iterator" else pre_dedup_journal)
+                            if c.md5_hex_digest == pre_hit.md5_hex_digest)
                 near = [values_of(c) for c in cells if values_of(c)[1:] == want[1:]][:3]
                 ctx.oracle_fail("not-recalled", "an intact, unambiguous deleted record is not reported with its values",
                                 dict(desc, reported_with_same_tail=near, **extra), None, want)
@@ -399,12 +406,6 @@ def _c(f):
     return f.get("case") or {}
 
 
-def _m_dedup_collision(f):
-    c = _c(f)
-    return (f.get("kind") == "not-recalled" and c.get("entry") == "iterator" and c.get("found_before_dedup") is True
-            and (c.get("lost_digest_shared_with") or 0) >= 2)
-
-
 def _m_variable_first(f):
     c = _c(f)
     return (f.get("kind") == "not-recalled" and c.get("location") in ("freeblock", "unalloc", "freelist")
@@ -417,13 +418,19 @@ def _m_freelist_not_rewritten(f):
             and c.get("page_rewritten_in_last_version") is False and c.get("found_before_dedup") is False)
 
 
+def _m_single_column_collision(f):
+    c = _c(f)
+    return (f.get("kind") == "not-recalled" and c.get("single_column") is True and c.get("found_before_dedup") is True
+            and (c.get("lost_digest_shared_with") or 0) >= 2)
+
+
 def _m_raised(f):
     return f.get("kind") == "carving-raised" and any(m(f) for m in P8.MATCHERS.values())
 
 
 MATCHERS = {
-    "c09_digest_collision_drops_record": _m_dedup_collision,
     "c09_variable_first_column": _m_variable_first,
     "c09_freelist_page_not_rewritten": _m_freelist_not_rewritten,
     "c09_carving_raised": _m_raised,
+    "c09_single_column_bogus_collision": _m_single_column_collision,
 }
